@@ -5,8 +5,9 @@ package main
 //
 // op:  [nlayers, (kind intervenes sticky)*, 0, acts...]   kinds 0 stream 1 trace 2 connlimit 3 ratelimit 4 cbreaker
 //      5 roundrobin 6 rebalancer 7 buffer; acts: 0 k v (header X-H-k: v) | 1 code | 2 len b.. (write) | 3 flush | 4 hijack
+//      | 5 103 (informational response) | 6 v (Set-Cookie: app=v, the handler's own cookie)
 // obs: [hijacked, status, handler invocations, body length, body hash, number and hash of handler headers delivered,
-//       Set-Cookie present, Flush calls that reached the connection's writer]
+//       number of Set-Cookie lines, Flush calls that reached the connection's writer]
 // A trace layer whose third field is set writes its records to a sink that fails (full disk, closed pipe).
 // Monitor C20: passive stack => handler invoked once and the client sees what it sees from the bare handler (plus the
 // documented cookie), Flusher available unless the buffer is in the stack, Hijacker available; one intervening layer
@@ -111,6 +112,12 @@ func decodeOp(op []int64) (layers []layerSpec, acts []act, proto int64, ok bool)
 			}
 			acts = append(acts, act{tag: 5, a: r[1]})
 			r = r[2:]
+		case 6:
+			if len(r) < 2 || r[1] < 0 || r[1] > 99 {
+				return nil, nil, 0, false
+			}
+			acts = append(acts, act{tag: 6, a: r[1]})
+			r = r[2:]
 		default:
 			return nil, nil, 0, false
 		}
@@ -122,7 +129,7 @@ func decodeOp(op []int64) (layers []layerSpec, acts []act, proto int64, ok bool)
 	pendingInfo := false
 	for i, a := range acts {
 		switch a.tag {
-		case 0:
+		case 0, 6:
 			if phase > 0 {
 				return nil, nil, 0, false
 			}
@@ -196,6 +203,8 @@ func scripted(acts []act, p *probe) http.Handler {
 				}
 			case 5:
 				w.WriteHeader(int(a.a))
+			case 6:
+				w.Header().Add("Set-Cookie", "app="+strconv.FormatInt(a.a, 10)+"; Path=/")
 			case 4:
 				hj, ok := w.(http.Hijacker)
 				if !ok {
@@ -368,7 +377,7 @@ func hashBytes(b []byte) int64 {
 	return h
 }
 
-func exchange(h http.Handler, proto int64) result {
+func exchange(h http.Handler, proto int64, badCookies bool) result {
 	var srv *httptest.Server
 	var client *http.Client
 	if proto == 1 {
@@ -384,6 +393,11 @@ func exchange(h http.Handler, proto int64) result {
 	}
 	defer srv.Close()
 	req, _ := http.NewRequest(http.MethodPost, srv.URL+"/some/path?q=1", bytes.NewReader([]byte("0123456789")))
+	if badCookies { // affinity cookies no balancer can decode: they are to be ignored, never a reason to refuse the request
+		for i := 0; i < 12; i++ {
+			req.AddCookie(&http.Cookie{Name: fmt.Sprintf("oxy%d", i), Value: "%zz"})
+		}
+	}
 	resp, err := client.Do(req)
 	if err != nil {
 		return result{err: err.Error(), status: -1}
@@ -414,9 +428,7 @@ func exchange(h http.Handler, proto int64) result {
 			r.hh = (r.hh + (ki*31 + vi + 1)) % 1000003
 		}
 	}
-	if len(resp.Header["Set-Cookie"]) > 0 {
-		r.cookie = 1
-	}
+	r.cookie = int64(len(resp.Header["Set-Cookie"]))
 	return r
 }
 
@@ -456,6 +468,9 @@ func (c *stackComp) Gen(rng *rand.Rand, idx int, tier string, targeted bool) hli
 		if !hij || rng.Intn(2) == 0 {
 			for k := 0; k < rng.Intn(4); k++ {
 				op = append(op, 0, int64(rng.Intn(10)), int64(rng.Intn(100)))
+			}
+			if rng.Intn(3) == 0 {
+				op = append(op, 6, int64(rng.Intn(100)))
 			}
 			info := rng.Intn(6) == 0
 			if info {
@@ -499,7 +514,8 @@ func (c *stackComp) Run(h *hlib.History) ([]hlib.Mon, bool) {
 			return nil, false
 		}
 		var flushes int32
-		r := exchange(recording(top, &flushes), proto)
+		badCookies := (len(acts)+len(layers))%2 == 0
+		r := exchange(recording(top, &flushes), proto, badCookies)
 		inv := int64(atomic.LoadInt32(&p.invocations))
 		h.Obs = append(h.Obs, []int64{r.hijacked, r.status, inv, r.bodyLen, r.bodyHash, r.nh, r.hh, r.cookie, int64(atomic.LoadInt32(&flushes))})
 		add := func(format string, a ...interface{}) {
@@ -511,7 +527,7 @@ func (c *stackComp) Run(h *hlib.History) ([]hlib.Mon, bool) {
 		}
 		// which layer answers?
 		first := -1
-		hasBuffer, hasSticky := false, false
+		hasBuffer, nSticky := false, int64(0)
 		for i, l := range layers {
 			if l.intervenes != 0 && first < 0 {
 				first = i
@@ -521,7 +537,7 @@ func (c *stackComp) Run(h *hlib.History) ([]hlib.Mon, bool) {
 					hasBuffer = true
 				}
 				if (l.kind == 5 || l.kind == 6) && l.sticky != 0 {
-					hasSticky = true
+					nSticky++
 				}
 			}
 		}
@@ -537,7 +553,7 @@ func (c *stackComp) Run(h *hlib.History) ([]hlib.Mon, bool) {
 		// passive: compare with the bare handler
 		p0 := &probe{}
 		var flushes0 int32
-		r0 := exchange(recording(scripted(acts, p0), &flushes0), proto)
+		r0 := exchange(recording(scripted(acts, p0), &flushes0), proto, badCookies)
 		if inv != 1 {
 			add("no layer intervenes but the handler was invoked %d time(s)", inv)
 		}
@@ -554,8 +570,8 @@ func (c *stackComp) Run(h *hlib.History) ([]hlib.Mon, bool) {
 		if f, f0 := atomic.LoadInt32(&flushes), atomic.LoadInt32(&flushes0); !hasBuffer && f != f0 {
 			add("%d of the handler's Flush calls reached the connection's writer, %d reach it from the bare handler: streaming flush is not kept available", f, f0)
 		}
-		if r.hijacked == 0 && (r.cookie == 1) != hasSticky {
-			add("Set-Cookie present=%d but sticky balancer in stack=%v", r.cookie, hasSticky)
+		if r.hijacked == 0 && r.cookie != nSticky+r0.cookie {
+			add("%d Set-Cookie lines reached the client; the handler sent %d of its own and %d sticky balancers are in the stack", r.cookie, r0.cookie, nSticky)
 		}
 	}
 	return mons, true
@@ -602,6 +618,8 @@ func (c *stackComp) Describe(h *hlib.History) interface{} {
 				as = append(as, "hijack")
 			case 5:
 				as = append(as, fmt.Sprintf("info %d", a.a))
+			case 6:
+				as = append(as, fmt.Sprintf("Set-Cookie app=%d", a.a))
 			}
 		}
 		s := describeLayers(layers) + []string{" http/1.1", " h2"}[proto] + " handler{" + strings.Join(as, "; ") + "}"
